@@ -59,6 +59,7 @@ type Conn struct {
 	// observations
 	Writes          [][]byte // one entry per Write call, in order
 	WriteSeq        []uint64 // global sequence number of each Write call (order across connections)
+	WriteAt         []time.Duration // virtual time of each Write call
 	Events          []api.ConnectionEvent
 	CloseEvent      api.ConnectionEvent
 	WriteAfterClose int
@@ -165,6 +166,7 @@ func (c *Conn) Write(bufs ...buffer.IoBuffer) (err error) {
 	if len(out) > 0 {
 		c.Writes = append(c.Writes, out)
 		c.WriteSeq = append(c.WriteSeq, atomic.AddUint64(&writeSeq, 1))
+		c.WriteAt = append(c.WriteAt, vrt.Now())
 		for _, cb := range c.bytesSent {
 			cb(uint64(len(out)))
 		}
